@@ -10,15 +10,15 @@ import (
 	"time"
 )
 
-type h2addr string
+type zzh2addr string
 
-func (a h2addr) Network() string { return "tcp" }
-func (a h2addr) String() string  { return string(a) }
+func (a zzh2addr) Network() string { return "tcp" }
+func (a zzh2addr) String() string  { return string(a) }
 
 // endpointConn is the proxy's side of a connection to an endpoint: Read blocks
 // until the endpoint has sent something, closed, or the connection is closed
 // locally; Write delivers at once unless the connection is broken.
-type endpointConn struct {
+type zzendpointConn struct {
 	name     string
 	in       chan []byte
 	inClosed bool
@@ -30,29 +30,29 @@ type endpointConn struct {
 	gate     chan struct{} // writes block until the gate is closed (an endpoint that is slow to take bytes)
 }
 
-func newEndpointConn(name string) *endpointConn {
-	return &endpointConn{name: name, in: make(chan []byte, 64), closedc: make(chan struct{})}
+func zznewEndpointConn(name string) *zzendpointConn {
+	return &zzendpointConn{name: name, in: make(chan []byte, 64), closedc: make(chan struct{})}
 }
 
-var errBrokenConn = errors.New("write: broken pipe")
-var errClosedEP = errors.New("use of closed network connection")
+var zzerrBrokenConn = errors.New("write: broken pipe")
+var zzerrClosedEP = errors.New("use of closed network connection")
 
-func (c *endpointConn) send(b []byte) {
+func (c *zzendpointConn) send(b []byte) {
 	if len(b) > 0 && !c.inClosed {
 		c.in <- append([]byte(nil), b...)
 	}
 }
 
-func (c *endpointConn) endpointCloses() {
+func (c *zzendpointConn) endpointCloses() {
 	if !c.inClosed {
 		c.inClosed = true
 		close(c.in)
 	}
 }
 
-func (c *endpointConn) Read(p []byte) (int, error) {
+func (c *zzendpointConn) Read(p []byte) (int, error) {
 	if c.closed {
-		return 0, errClosedEP
+		return 0, zzerrClosedEP
 	}
 	if len(c.rest) == 0 {
 		select {
@@ -62,7 +62,7 @@ func (c *endpointConn) Read(p []byte) (int, error) {
 			}
 			c.rest = seg
 		case <-c.closedc:
-			return 0, errClosedEP
+			return 0, zzerrClosedEP
 		}
 	}
 	n := copy(p, c.rest)
@@ -70,12 +70,12 @@ func (c *endpointConn) Read(p []byte) (int, error) {
 	return n, nil
 }
 
-func (c *endpointConn) Write(p []byte) (int, error) {
+func (c *zzendpointConn) Write(p []byte) (int, error) {
 	if c.closed {
-		return 0, errClosedEP
+		return 0, zzerrClosedEP
 	}
 	if c.failWrites {
-		return 0, errBrokenConn
+		return 0, zzerrBrokenConn
 	}
 	if c.gate != nil {
 		// the endpoint is not taking bytes yet: the write waits until it does, or until the
@@ -83,25 +83,25 @@ func (c *endpointConn) Write(p []byte) (int, error) {
 		select {
 		case <-c.gate:
 		case <-c.closedc:
-			return 0, errClosedEP
+			return 0, zzerrClosedEP
 		}
 		if c.failWrites {
-			return 0, errBrokenConn
+			return 0, zzerrBrokenConn
 		}
 	}
 	c.out.Write(p)
 	return len(p), nil
 }
 
-func (c *endpointConn) Close() error {
+func (c *zzendpointConn) Close() error {
 	if !c.closed {
 		c.closed = true
 		close(c.closedc)
 	}
 	return nil
 }
-func (c *endpointConn) LocalAddr() net.Addr                { return h2addr("10.0.0.2:1") }
-func (c *endpointConn) RemoteAddr() net.Addr               { return h2addr("10.0.0.3:2") }
-func (c *endpointConn) SetDeadline(t time.Time) error      { return nil }
-func (c *endpointConn) SetReadDeadline(t time.Time) error  { return nil }
-func (c *endpointConn) SetWriteDeadline(t time.Time) error { return nil }
+func (c *zzendpointConn) LocalAddr() net.Addr                { return zzh2addr("10.0.0.2:1") }
+func (c *zzendpointConn) RemoteAddr() net.Addr               { return zzh2addr("10.0.0.3:2") }
+func (c *zzendpointConn) SetDeadline(t time.Time) error      { return nil }
+func (c *zzendpointConn) SetReadDeadline(t time.Time) error  { return nil }
+func (c *zzendpointConn) SetWriteDeadline(t time.Time) error { return nil }
